@@ -57,14 +57,15 @@ CONSTANTS
   Policy,             \* [Engines -> {"munkres","greedy","random","allvisible"}]
   NSteps,             \* number of physics steps of the configured span
   Dt,                 \* ticks (seconds) per physics step
-  OutEvery,           \* an output row set is written every OutEvery-th step
+  OutDt,              \* output interval in ticks: rows are written when clock time % OutDt = 0
   Events,             \* set of event records [id, kind, t0, t1, who, eng, tgt, planned]
   WithEstimation,     \* FALSE = truth_simulation_only
   WithSerendipity,    \* background (serendipitous) observations modelled
   WithFaults,         \* a database commit may fail
   ResetChangesPerJob, MissListSquared, KeepMissedAcrossSteps,   \* D6, D5, D6b as coded
   PriorityToAllEngines,                                         \* D1 as coded
-  PruneKeepsEqual                                               \* D3 as coded
+  PruneKeepsEqual,                                              \* D3 as coded
+  PartialCommit       \* hypothetical: a failing commit leaves the truth rows of the step behind
 
 None     == "none"
 NoChange == <<0, "none">>       \* sensor not mentioned in sensor_changes
@@ -430,7 +431,7 @@ JoinUpdate ==
 
 -----------------------------------------------------------------------------
 (* Scenario.propagateTo: saveDatabaseOutput on the output interval *)
-IsOutputStep == k % OutEvery = 0
+IsOutputStep == (k * Dt) % OutDt = 0
 
 Written ==
   [epochs |-> db.epochs \cup {k},
@@ -457,8 +458,9 @@ SaveFail ==
   /\ WithFaults /\ pc = "output" /\ IsOutputStep
   /\ pc' = "failed"
   /\ savedObs' = {} /\ savedMiss' = EmptyBag      \* the transient lists were already handed over
+  /\ db' = IF PartialCommit THEN [db EXCEPT !.truth = Written.truth] ELSE db
   /\ UNCHANGED <<k, eng, todo, targets, sensors, engT, engS, truthAt, estAt, estObs, pend, visM, decision, slewOK, hit,
-                 obsStep, missStep, missHeld, changes, pointing, db, alive,
+                 obsStep, missStep, missHeld, changes, pointing, alive,
                  delivered, handled, queue, estQueue, applied, appliedEst, biasQ>>
 
 SkipOutput ==
@@ -555,7 +557,7 @@ EstimatesAtClock == (WithEstimation /\ pc \in {"idle", "output"}) => \A t \in ta
 \* output with the truth trajectories
 NonInterference ==
   [][truthVars' # truthVars => pc \in {"stepev", "propev", "propagate"}]_vars
-OutputSteps == {j \in 0..k : j % OutEvery = 0}
+OutputSteps == {j \in 0..k : (j * Dt) % OutDt = 0}
 AliveAt(j) == alive[j + 1]
 DbComplete ==
   pc = "idle" =>
